@@ -1,29 +1,36 @@
 #!/bin/bash
-# tools/reseed.sh — re-run the registered checks against every seeded change applied on top of /repo's HEAD
-# (scratch worktree + scratch copy of /verif; nothing is changed in /repo or /verif except seeded/*/meta.json).
+# tools/reseed.sh [jobs] — re-run the registered checks against every seeded change applied on top of /repo's HEAD
+# (scratch worktrees + scratch copies of /verif; nothing is changed in /repo or /verif except seeded/*/meta.json).
+# RESEED_TAG=<tag> stores the result under final_on_head_<tag>; VERIF_SEED selects the generators' seed.
 cd /verif
-for d in seeded/*/; do
+JOBS=${1:-4}
+one() {
+  d=$1
   id=$(basename $d)
-  prop=$(python3 -c "import json;print(json.load(open('$d/meta.json')).get('property') or '')")
-  checks=$(python3 -c "import json;print(' '.join(json.load(open('$d/meta.json')).get('checks_run') or []))")
+  prop=$(python3 -c "import json;print(json.load(open('/verif/$d/meta.json')).get('property') or '')")
+  checks=$(python3 -c "import json;print(' '.join(json.load(open('/verif/$d/meta.json')).get('checks_run') or []))")
   [ -z "$checks" ] && checks=$prop
-  wt=/tmp/reseed_wt
+  wt=/tmp/reseed_wt_$id
   git -C /repo worktree remove --force $wt >/dev/null 2>&1
   git -C /repo worktree add -q --detach $wt HEAD
   if (cd $wt && git apply /verif/$d/patch.diff 2>/dev/null); then
-    res=$(tools/muttest.sh $wt $checks 2>&1 | grep "exit=")
+    res=$(/verif/tools/muttest.sh $wt $checks 2>&1 | grep "exit=")
     applied=true
   else
     res="patch no longer applies on HEAD (superseded by a later fix)"
     applied=false
   fi
-  python3 - "$d/meta.json" "$applied" "$res" <<'PY'
-import json,sys,subprocess
+  python3 - "/verif/$d/meta.json" "$applied" "$res" <<'PY'
+import json,sys,subprocess,os
 p,applied,res=sys.argv[1:4]
 m=json.load(open(p))
-m['final_on_head'+(('_'+__import__('os').environ['RESEED_TAG']) if __import__('os').environ.get('RESEED_TAG') else '')]={"head":subprocess.check_output(['git','-C','/repo','log','--format=%h','-1']).decode().strip(),"patch_applies":applied=="true","check_results":[l.split(' replay=')[0]+(" no-failing-input-found" if "no-failing-input-found" in l else "") for l in res.splitlines()]}
+tag=os.environ.get('RESEED_TAG')
+m['final_on_head'+(('_'+tag) if tag else '')]={"head":subprocess.check_output(['git','-C','/repo','log','--format=%h','-1']).decode().strip(),"patch_applies":applied=="true","check_results":[l.split(' replay=')[0]+(" no-failing-input-found" if "no-failing-input-found" in l else "") for l in res.splitlines()]}
 json.dump(m,open(p,'w'),indent=1)
 PY
+  git -C /repo worktree remove --force $wt >/dev/null 2>&1
   echo "$id: $res" | tr '\n' ' '; echo
-done
-git -C /repo worktree remove --force /tmp/reseed_wt >/dev/null 2>&1
+}
+export -f one
+ls -d seeded/*/ | xargs -P $JOBS -I{} bash -c 'one {}'
+git -C /repo worktree prune
